@@ -211,7 +211,7 @@ Proof.
 Qed.
 
 Definition new_ok (pid : Z) (w : worker) (now : Z) (b : batch) : Prop :=
-  b_pool b = pid /\ w_id (b_worker b) = w_id w /\ b_now b = now /\ b_tasks b <> [].
+  b_pool b = pid /\ w_id (b_worker b) = w_id w /\ b_now b = now /\ b_tasks b <> [] /\ w_loaded (b_worker b) = w_loaded w.
 
 Lemma infer_loop_spec : forall wd fuel ls now pid w st e acc w' st' acc',
   world_wf wd -> Inv_st wd st -> Forall (clean now) st -> esq_ok wd e ->
@@ -304,8 +304,8 @@ Proof.
       repeat (split; [assumption|]). split; [eapply incl_tran; eassumption|].
       exists (mkB pid w mid s ts now :: new). split; [rewrite Rn1, <- app_assoc; reflexivity|]. split.
       * unfold placed. cbn [flat_map b_tasks]. apply incl_app; [assumption|]. eapply incl_tran; [exact Rn2|assumption].
-      * constructor; [unfold new_ok; cbn; repeat split; apply nonempty_true; assumption|].
-        eapply Forall_impl; [|exact Rn3]. intros b [B1 [B2 [B3 B4]]]. unfold new_ok. repeat split; try assumption. lia.
+      * constructor; [unfold new_ok; cbn; split; [reflexivity|]; split; [reflexivity|]; split; [reflexivity|]; split; [apply nonempty_true; assumption|reflexivity]|].
+        eapply Forall_impl; [|exact Rn3]. intros b [B1 [B2 [B3 [B4 B5]]]]. unfold new_ok. repeat split; try assumption; [lia|congruence].
     + injection Ewp as <-.
       assert (Ho1 : once_inv acc (set_model m2 st)).
       { destruct Ho as [Ho1 Ho2]. split; [assumption|]. intros t Ht Hc'. apply (Ho2 t Ht). apply Hrec2. assumption. }
